@@ -16,6 +16,7 @@ func init() {
 // MulByteSliceLE treats in and out as arrays of Ts stored in
 // little-endian format, and sets each out<T>[i] to c.Times(in<T>[i]).
 func MulByteSliceLE(c T, in, out []byte) {
+	verifNoteAccess(in, out)
 	mulByteSliceLE(c, in, out, hasSSSE3)
 }
 
@@ -41,6 +42,7 @@ func mulByteSliceLE(c T, in, out []byte, useSSSE3 bool) {
 // little-endian format, and adds c.Times(in<T>[i]) to out<T>[i], for
 // each i.
 func MulAndAddByteSliceLE(c T, in, out []byte) {
+	verifNoteAccess(in, out)
 	mulAndAddByteSliceLE(c, in, out, hasSSSE3)
 }
 
